@@ -197,7 +197,8 @@ fn ledger_scenarios(tier: Tier, extra_probes: &dyn Fn(&Cfg, &Menu) -> Vec<Act>) 
     let mut v = vec![];
     let mk = |name: &str, cfg: Cfg, mut menu: Menu, v: &mut Vec<Scenario>| {
         menu.modifies = fee_account_swap(&cfg);
-        let p = extra_probes(&cfg, &menu);
+        let mut p = extra_probes(&cfg, &menu);
+        p.extend(probes::match_respell(&alphabet_l(&cfg, &menu)));
         v.push(scen(name, cfg, menu, p));
     };
     mk("B21/P1/F1/R0", Cfg::new(0, 2, ("0.25", "0.25"), "R0"), menu_p1(2, 1), &mut v);
@@ -400,7 +401,9 @@ pub fn plan(prop: &str, tier: Tier) -> Plan {
                         let mut menu = menu_p0(1, 1, vec!["2", "4"]);
                         menu.sizes = vec![1, 2];
                         menu.match_sizes = vec![1, 2];
-                        v.push(scen(&format!("B11/P0/F1/{spec}"), cfg, menu, vec![]));
+                        // deviant creates: if one is wrongly admitted, exploration continues from it
+                        let p = if c == 'r' || a == 'r' { probes::creates(&cfg, &menu, 1) } else { vec![] };
+                        v.push(scen(&format!("B11/P0/F1/{spec}"), cfg, menu, p));
                     }
                 }
             }
